@@ -653,6 +653,21 @@ fn statement_inputs(rng: &mut Rng, thorough: bool, out: &mut Vec<Input>) {
     ] {
         push("huge", t.to_string(), vec![]);
     }
+    // arrays whose DIM is not executed (it sits in a branch that is not taken): every use must end at BASIC level
+    for use_ in [
+        "PRINT A%(1)",
+        "A%(1) = 4",
+        "PRINT LBOUND(A%); UBOUND(A%)",
+        "X% = A%(0) + 1",
+        "READ A%(2)\nDATA 5",
+        "INPUT A%(1)",
+        "S A%()\nSUB S (P%())\n PRINT P%(1)\nEND SUB",
+        "FOR I% = 0 TO 3\n A%(I%) = I%\nNEXT",
+    ] {
+        for guard in ["IF 0 THEN\nDIM A%(3)\nEND IF\n", "GOTO L\nDIM A%(3)\nL:\n", "SELECT CASE 1\nCASE 2\nDIM A%(1 TO 3)\nEND SELECT\n", "WHILE 0\nDIM A%(3, 3)\nWEND\n"] {
+            push("dim-not-executed", format!("{}{}\n", guard, use_), b"7\n".to_vec());
+        }
+    }
     // arrays whose element slots fit but whose elements own heap data (records, fixed-length strings)
     for t in [
         "TYPE BIGREC\n I AS INTEGER\n T AS STRING * 200\n D AS DOUBLE\nEND TYPE\nDIM A(32767, 200) AS BIGREC\nPRINT \"ok\"\n",
